@@ -366,6 +366,8 @@ pub fn run(tier: Tier) -> CheckResult {
         }
         Tier::Thorough => c05::enumerate(Tier::Quick),
     };
+    let mut types = types;
+    types.extend(gen::enumerate_spines(&[RTy::named("models::Item"), RTy::named("crate::dto::Kind"), RTy::named("self::Item")], &[c05::leaf("i32"), c05::leaf("Item")], 2));
     let mut seen = std::collections::HashSet::new();
     let types: Vec<RTy> = types.into_iter().filter(|t| seen.insert(t.clone())).collect();
 
